@@ -22,6 +22,7 @@ import (
 	"sort"
 	"strings"
 	"sync"
+	"sync/atomic"
 	"time"
 
 	"github.com/SAP/go-dblib/tds"
@@ -226,6 +227,12 @@ type concCfg struct {
 }
 
 func runConcurrent(out caser, g *pk.Gen, c concCfg) {
+	t0 := time.Now()
+	defer func() {
+		if d := time.Since(t0); d > 3*time.Second {
+			fmt.Printf("c12: concurrent run g=%d procs=%d took %.1fs (watchdogs fired)\n", c.g, c.procs, d.Seconds())
+		}
+	}()
 	old := runtime.GOMAXPROCS(c.procs)
 	defer runtime.GOMAXPROCS(old)
 	e := newEnv(100000, true)
@@ -241,7 +248,7 @@ func runConcurrent(out caser, g *pk.Gen, c concCfg) {
 	var zeroGate = make(chan struct{})
 	all.Add(c.g)
 	others.Add(c.g)
-	ctx, cancel := context.WithTimeout(context.Background(), 60*time.Second) // watchdog for every blocking call
+	ctx, cancel := context.WithTimeout(context.Background(), 12*time.Second) // watchdog for every blocking call
 	defer cancel()
 	for _, w := range ws {
 		go func(w *concWorker) {
@@ -262,7 +269,7 @@ func runConcurrent(out caser, g *pk.Gen, c concCfg) {
 			<-start
 			var ch *tds.Channel
 			var err error
-			ret, pan := within(60*time.Second, func() { ch, err = e.conn.NewChannel() })
+			ret, pan := within(12*time.Second, func() { ch, err = e.conn.NewChannel() })
 			if !ret || pan || err != nil || ch == nil {
 				w.problems = append(w.problems, fmt.Sprintf("NewChannel: returned=%v panicked=%v err=%v", ret, pan, err))
 				return
@@ -317,7 +324,7 @@ func runConcurrent(out caser, g *pk.Gen, c concCfg) {
 				<-zeroGate
 			}
 			w.closed = true
-			w.closeRet, _ = within(60*time.Second, func() { ch.Close() })
+			w.closeRet, _ = within(12*time.Second, func() { ch.Close() })
 		}(w)
 	}
 	close(start)
@@ -336,30 +343,36 @@ func runConcurrent(out caser, g *pk.Gen, c concCfg) {
 	hung := false
 	select {
 	case <-allDone:
-	case <-time.After(150 * time.Second):
+	case <-time.After(45 * time.Second):
+		hung = true
+		atomic.AddInt32(&watchdogHits, 10)
+	}
+	var problems []string
+	select {
+	case <-gate:
+	case <-time.After(10 * time.Second):
 		hung = true
 	}
-	<-gate
-	var problems []string
 	if hung {
 		problems = append(problems, "goroutines did not finish")
 	}
-	closeRet, _ := within(30*time.Second, func() { e.conn.Close() })
+	closeRet, _ := within(6*time.Second, func() { e.conn.Close() })
 	if !closeRet {
 		problems = append(problems, "Conn.Close did not return")
 	}
 	select {
 	case <-e.readerDone:
-	case <-time.After(10 * time.Second):
+	case <-time.After(4 * time.Second):
 		problems = append(problems, "reader goroutine did not end")
 	}
 	peer.shutdown()
-	leftover += invalidCount(connErrs(e.conn))
 	if hung {
+		e.shutdown()
 		out.Case(3, sx.L{sx.I(int64(ps)), sx.L{}, sx.I(0), sx.L{}}, sx.L{sx.L{}, sx.I(-1), sx.L{pk.S("hung")}},
 			fmt.Sprintf("conc;g=%d;procs=%d;hung", c.g, c.procs))
 		return
 	}
+	leftover += invalidCount(connErrs(e.conn))
 	// assemble the history per channel id
 	peer.mu.Lock()
 	defer peer.mu.Unlock()
@@ -425,6 +438,9 @@ func runConcurrent(out caser, g *pk.Gen, c concCfg) {
 	if res == nil {
 		res = sx.L{}
 	}
+	if len(problems) > 0 {
+		atomic.AddInt32(&watchdogHits, 4) // a failing run is a reported case; a few of them are enough
+	}
 	pl := sx.L{}
 	for _, s := range problems {
 		pl = append(pl, pk.S(s))
@@ -443,9 +459,16 @@ func runConcurrent(out caser, g *pk.Gen, c concCfg) {
 func genConcurrent(g *pk.Gen, out caser, reps int) {
 	gs := []int{1, 2, 3, 4, 8, 16}
 	n := 0
-	for rep := 0; rep < reps; rep++ {
+	// creation storms: 16 goroutines released together into NewChannel, nothing else
+	for rep := 0; rep < 4*reps && !tooManyHangs(); rep++ {
+		runConcurrent(out, g, concCfg{g: 16, procs: []int{2, 4, 16}[rep%3], nmsgs: 0, yields: rep%2 == 0})
+	}
+	for rep := 0; rep < reps && !tooManyHangs(); rep++ {
 		for _, procs := range []int{1, 4, 16} {
 			for _, ng := range gs {
+				if tooManyHangs() {
+					return
+				}
 				c := concCfg{g: ng, procs: procs, nmsgs: 4, unknown: g.Rng.Intn(6), yields: g.Rng.Bool()}
 				if rep%3 == 2 {
 					c.g = g.Rng.Range(1, 16)
